@@ -145,9 +145,10 @@ func withHelpers(p *Program, fn *ssa.Function) []*ssa.Function {
 				if g == nil || seen[g] || !p.InZap(g) || len(g.Blocks) == 0 {
 					continue
 				}
-				if _, pinned := pinnedSigs[fnKey(g)]; pinned && g.Parent() == nil {
-					// a function the pinned tree already had is not a helper
-					// extracted from fn; its records are judged where they were
+				if g.Parent() == nil && !isNewHelper(p, g) {
+					// a function the pinned tree already had (under this or
+					// another name) is not a helper extracted from fn; its
+					// records are judged where they were
 					continue
 				}
 				seen[g] = true
